@@ -3,8 +3,8 @@
 import json, os, sys
 here = os.path.dirname(os.path.abspath(__file__))
 sys.path.insert(0, here)
-from registry import PROPS
-from manifest_meta import META, NOT_APPLICABLE, HOOK_COMMITS
+from registry import PROPS, META
+from manifest_meta import NOT_APPLICABLE, HOOK_COMMITS
 
 checks = []
 for pid in sorted(PROPS):
